@@ -952,4 +952,65 @@ class Clock(Sub):
         return None
 
 
-SUBS = [Histories(), Closure(), Retention(), Immutable(), ModuleState(), ProcessState(), ResultAliasing(), EvaluationScale(), Clock()]
+LOCALE_DIRECTIVES = ('%a', '%A', '%b', '%B', '%p', '%c', '%x', '%X')
+TEXT_FORMATS = ['mmmm', 'mmm', 'mmmmm', 'dddd', 'ddd', 'am/pm', 'a/p', 'yyyy-mm-dd', 'd mmmm yyyy', 'ddd, dd mmm yy', 'hh:mm:ss am/pm', 'dd/mm/yyyy hh:mm',
+                'mmmm d', 'yy']
+
+
+class LocaleNames(Sub):
+    name = 'c02.locale'
+    rule = ('the language of the host process (LC_TIME) is an environment answer like the clock: the date classes that the library\'s '
+            'modules see are replaced by subclasses that record every format handed to strftime; 14 date formats of TEXT x 6 dates: '
+            'no directive whose output depends on the locale (%a %A %b %B %p %c %x %X) may be used - month and weekday names and '
+            'AM/PM come out the same in every locale; the result must be text; non-trivial = all')
+    min_cases = 14
+    min_nontrivial = 14
+
+    def cases(self, tier, unit):
+        for i in range(len(TEXT_FORMATS)):
+            yield [i]
+
+    def check(self, env, case):
+        import datetime as _dt
+        import sys
+        import types
+        fmt = TEXT_FORMATS[case[0]]
+        env.nt()
+        seen = []
+
+        class Any(type):
+            def __instancecheck__(cls, inst):
+                return isinstance(inst, _dt.datetime)
+
+        class SpyDateTime(_dt.datetime, metaclass=Any):
+            def strftime(self, f):
+                seen.append(f)
+                return _dt.datetime.strftime(self, f)
+        stub = types.ModuleType('datetime')
+        stub.__dict__.update(_dt.__dict__)
+        stub.datetime = SpyDateTime
+        saved = []
+        for name in sorted(sys.modules):
+            mod = sys.modules[name]
+            if (name == 'hotxlfp' or name.startswith('hotxlfp.')) and mod is not None and getattr(mod, 'datetime', None) is _dt:
+                saved.append(mod)
+                mod.datetime = stub
+        try:
+            for d in (_dt.datetime(2020, 3, 1, 9, 5, 7), _dt.datetime(2021, 12, 31, 23, 59, 59), _dt.datetime(1999, 1, 4), _dt.datetime(2024, 2, 29, 12, 0),
+                      _dt.datetime(2000, 8, 15, 0, 30), _dt.datetime(2010, 10, 10, 13, 1)):
+                del seen[:]
+                o = env.evo('TEXT(xd,xf)', {'xd': d, 'xf': fmt})
+                bad = sorted(set(x for f in seen for x in LOCALE_DIRECTIVES if x in f.replace('%%', '')))
+                if bad:
+                    return fail('TEXT(xd,%r) with xd = %s formats through strftime%r: the directives %s print in the language of the host '
+                                'process (LC_TIME), so the outcome depends on more than the formula and its bindings' % (
+                                    fmt, d.isoformat(), tuple(seen), ', '.join(bad)), [], bad)
+                if o[0] != 'v' or not isinstance(o[1], str):
+                    return fail('TEXT(xd,%r) with xd = %s gives %r, expected text' % (fmt, d.isoformat(), o), 'text', o)
+        finally:
+            for mod in saved:
+                mod.datetime = _dt
+        return None
+
+
+SUBS = [Histories(), Closure(), Retention(), Immutable(), ModuleState(), ProcessState(), ResultAliasing(), EvaluationScale(), Clock(), LocaleNames()]
